@@ -15,6 +15,7 @@ type Sorts struct {
 	order    []*structSort
 	boxed    map[string]string // type string -> sort, for box/unbox functions
 	boxOrder []string
+	boxTypes map[string]types.Type
 	tags     map[string]int // type string -> interface tag
 	tagOrder []string
 	tagTypes []types.Type
@@ -174,6 +175,10 @@ func (s *Sorts) Box(t types.Type) (box, unbox string) {
 	if _, ok := s.boxed[k]; !ok {
 		s.boxed[k] = s.SortOf(t)
 		s.boxOrder = append(s.boxOrder, k)
+		if s.boxTypes == nil {
+			s.boxTypes = map[string]types.Type{}
+		}
+		s.boxTypes[k] = t
 	}
 	return "box." + m, "unbox." + m
 }
